@@ -63,8 +63,13 @@ type authHoney struct {
 	authCalls  []string          // X-Honeycomb-Team of every /1/auth request
 	keyIDs     map[string]string // key -> id returned by /1/auth
 	decodeErrs []string
-	other      []string // any other request (method + path)
-	discard    bool     // do not decode batches
+	other      []string     // any other request (method + path)
+	discard    bool         // do not decode batches
+	inflight   atomic.Int64 // requests being served right now
+	// authScript, when set, decides how /1/auth treats a key: "" = normal answer,
+	// "401", "500", "garbage" (200 with an undecodable body), "hangup" (connection
+	// closed without an answer), "slow" (normal answer after 4 s).
+	authScript func(key string) string
 }
 
 func authNewHoney(keyIDs map[string]string) *authHoney {
@@ -81,7 +86,11 @@ func authNewHoney(keyIDs map[string]string) *authHoney {
 		h.mu.Unlock()
 		w.WriteHeader(http.StatusNotFound)
 	})
-	h.srv = httptest.NewServer(mux)
+	h.srv = httptest.NewServer(http.HandlerFunc(func(w http.ResponseWriter, r *http.Request) {
+		h.inflight.Add(1)
+		defer h.inflight.Add(-1)
+		mux.ServeHTTP(w, r)
+	}))
 	return h
 }
 
@@ -96,6 +105,31 @@ func (h *authHoney) handleAuth(w http.ResponseWriter, r *http.Request) {
 	}
 	id := h.keyIDs[key]
 	h.mu.Unlock()
+	if h.authScript != nil {
+		switch h.authScript(key) {
+		case "401":
+			w.WriteHeader(http.StatusUnauthorized)
+			return
+		case "500":
+			w.WriteHeader(http.StatusInternalServerError)
+			return
+		case "garbage":
+			w.Header().Set("Content-Type", "application/json")
+			w.Write([]byte(`{"environment":`))
+			return
+		case "hangup":
+			if hj, ok := w.(http.Hijacker); ok {
+				if c, _, err := hj.Hijack(); err == nil {
+					c.Close()
+					return
+				}
+			}
+			w.WriteHeader(http.StatusBadGateway)
+			return
+		case "slow":
+			time.Sleep(4 * time.Second)
+		}
+	}
 	w.Header().Set("Content-Type", "application/json")
 	// every key is a valid key of some environment; only the id differs.
 	fmt.Fprintf(w, `{"api_key_access":{"events":true},"team":{"slug":"team"},"environment":{"slug":"env","name":"env"},"id":%s}`, strconv.Quote(id))
@@ -406,6 +440,11 @@ type authSUTOpts struct {
 	Peer bool
 	// HoneyDiscard makes the fake Honeycomb swallow batches without decoding them.
 	HoneyDiscard bool
+	// BatchTimeout of the upstream DirectTransmission (default 20 ms). Its
+	// dispatcher ticks every BatchTimeout/4, so a long-lived idle SUT wants it large.
+	BatchTimeout time.Duration
+	// AuthScript scripts /1/auth per key (see authHoney.authScript).
+	AuthScript func(key string) string
 }
 
 type authSUT struct {
@@ -469,6 +508,7 @@ func authStartSUTOnce(o authSUTOpts) (*authSUT, error) {
 	}
 	s.Honey = authNewHoney(o.KeyIDs)
 	s.Honey.discard = o.HoneyDiscard
+	s.Honey.authScript = o.AuthScript
 	ok := false
 	defer func() {
 		if !ok {
@@ -533,7 +573,11 @@ func authStartSUTOnce(o authSUTOpts) (*authSUT, error) {
 	s.Log = &authLogger{onError: o.OnError}
 	met := &metrics.NullMetrics{}
 	s.upTransp = &http.Transport{MaxIdleConnsPerHost: 4}
-	s.Upstream = transmit.NewDirectTransmission(types.TransmitTypeUpstream, s.upTransp, 50, 20*time.Millisecond, 30*time.Second, true, nil)
+	bt := o.BatchTimeout
+	if bt == 0 {
+		bt = 20 * time.Millisecond
+	}
+	s.Upstream = transmit.NewDirectTransmission(types.TransmitTypeUpstream, s.upTransp, 50, bt, 30*time.Second, true, nil)
 	s.Upstream.Config, s.Upstream.Logger, s.Upstream.Metrics, s.Upstream.Version = cfg, s.Log, met, "verif"
 	if err := s.Upstream.Start(); err != nil {
 		return nil, err
